@@ -11,7 +11,12 @@ clauses (spec/Chronicle_Trace.tla).
 usage: python -m harness.chronicle_h <jobs.json> <out.ndjson>
  jobs.json = {"jobs": [ {"id": .., "table": {cal, tod, at, run, st, zone}, "appends": [entry id ..],
                          "strform": bool,
-                         "queries": [[after, before, limit, ok(0/1), now, zone, api(0/1)], ..]} ]}
+                         "queries": [[after, before, limit, ok(0/1), now, zone, kind, e], ..]} ]}
+ kind 0 = chronicle.find, 1 = fe.api.schedule.failed|succeeded, 2 = ANOTHER READER of the history:
+ the real dawgie.fe.api.df_model_statistics([task of entry e]) with dawgie.context.boot_time =
+ `after` (the scheduler's queues are empty: the node is neither doing nor to do); the files are
+ read back after it.  After EVERY find the harness scribbles on the entries it was handed (status,
+ target, timing, an extra key): they are the caller's own copies, later answers must not change.
  instants are ordinals (day-1)*len(tod) + (tod-1); -1 = argument not given.  zone = index
  (from 1) into table.zone (UTC offsets in minutes): the bounds are handed over as tz-aware
  datetimes / ISO strings written with that offset - the same instants.
@@ -35,6 +40,7 @@ from vlib import boot
 REACTOR, WORK = boot.boot()
 
 import dawgie.context  # noqa: E402
+import dawgie.fe.api as feapi  # noqa: E402
 import dawgie.fe.api.schedule as api  # noqa: E402
 import dawgie.pl.logger.chronicle as chronicle  # noqa: E402
 
@@ -202,8 +208,27 @@ def run_job(job, corrupt):
             files[0]['ents'] = files[0]['ents'][1:]
         steps.append({'ev': 'append', 'args': dict(NOARGS, e=e), 'st': {'files': files}, 'obs': {'res': [], 'err': err}})
     nres = 0
-    for after, before, limit, ok, now, zone, via_api in job['queries']:
+    for after, before, limit, ok, now, zone, qkind, qe in job['queries']:
+        via_api = qkind == 1
         Clock.current = w.inst(now)
+        if qkind == 2:
+            err = ''
+            dawgie.context.boot_time = w.inst(after, zone)
+            try:
+                body = json.loads(feapi.df_model_statistics([w.entry(qe, True)['task']]))
+                if body['status'] != 'success':
+                    err = 'api status ' + str(body['status'])
+            except Exception as ex:  # pylint: disable=broad-except
+                err = repr(ex)[:200]
+            steps.append(
+                {
+                    'ev': 'stats',
+                    'args': {'e': qe, 'after': after, 'before': -1, 'limit': -1, 'ok': True, 'now': now, 'zone': zone},
+                    'st': {'files': w.readback(chron)},
+                    'obs': {'res': [], 'err': err},
+                }
+            )
+            continue
         reads = Clock.reads
         err, res = '', []
         try:
@@ -220,14 +245,20 @@ def run_job(job, corrupt):
                 else:
                     res = w.project(body['content'])
             else:
-                res = w.project(
-                    chronicle.find(
-                        after=w.inst(after, zone) if after >= 0 else None,
-                        before=w.inst(before, zone) if before >= 0 else None,
-                        limit=limit if limit >= 0 else None,
-                        succeeded=bool(ok),
-                    )
+                found = chronicle.find(
+                    after=w.inst(after, zone) if after >= 0 else None,
+                    before=w.inst(before, zone) if before >= 0 else None,
+                    limit=limit if limit >= 0 else None,
+                    succeeded=bool(ok),
                 )
+                res = w.project(found)
+                for x in found:  # the caller does what it likes with ITS copies
+                    if isinstance(x, dict):
+                        x['status'] = 'seen'
+                        x['target'] = 'edited by the caller'
+                        x['note'] = len(steps)
+                        if isinstance(x.get('timing'), dict):
+                            x['timing']['completed'] = '1999-12-31 23:59:59+00:00'
         except Exception as ex:  # pylint: disable=broad-except
             err = repr(ex)[:200]
         if before < 0 and not err:
